@@ -86,6 +86,9 @@ def _j(x):
         return repr(x)
 
 
+IMPORT_ERRORS = {}
+
+
 def registry():
     """property id -> callable(ctx); discovered from vf/families/*.py modules defining PROPERTIES"""
     reg = {}
@@ -93,7 +96,12 @@ def registry():
     for m in pkgutil.iter_modules(fam.__path__):
         if m.name.startswith("_"):
             continue
-        mod = importlib.import_module("vf.families." + m.name)
+        try:
+            mod = importlib.import_module("vf.families." + m.name)
+        except Exception:
+            # one broken family module must not take the other properties' checks down with it
+            IMPORT_ERRORS[m.name] = traceback.format_exc()
+            continue
         for pid, fn in getattr(mod, "PROPERTIES", {}).items():
             reg[pid] = fn
         # coverage beyond the listed properties: EXTRAS = {"name": fn}, run with `./check X-name`
@@ -140,6 +148,8 @@ def run_check(prop, tier, seed, replay=None):
     reg = registry()
     if prop not in reg:
         print("no check registered for %s" % prop)
+        for name, tb in IMPORT_ERRORS.items():
+            print("family module %s failed to import:\n%s" % (name, tb))
         return 2
     ctx = Ctx(prop, tier, seed, replay)
     try:
